@@ -13,6 +13,7 @@
 -/
 import Fbr.Lemmas.SrvGood
 import Fbr.Lemmas.SrvAllocs
+import Fbr.Lemmas.SrvAsyncGood
 
 namespace Fbr.Thm.C01
 open Fbr.Srv Fbr.Wire
@@ -177,6 +178,35 @@ theorem structured_request_answered (cfg : Cfg) (fs : Call → Ans) (u : Nat) (c
   unfold withObj
   rw [if_neg (by omega)]
   exact finish_answers cfg u _ _ _ okb h16 hfit
+
+/-! ### the asynchronous request path (`Server::async_handle_message`)
+
+`Fbr.SrvAsync.handle` is the model of `async_io.rs`; `forget` drops what only the async writer
+records.  These hold for EVERY request byte string — including the WRITE requests on which the
+two paths differ (C20's known finding) and file systems that return passthrough ids. -/
+
+/-- the reply-stream invariant on the asynchronous path -/
+theorem async_good_handle (cfg : Cfg) (fs : Call → Ans) (req : Bytes) (hcap : cfg.cap < 2 ^ 32)
+    (hfs : FsSane fs) : Good cfg (uniqueOf req) (Fbr.SrvAsync.forget (Fbr.SrvAsync.handle cfg fs req)) :=
+  Fbr.SrvAsync.good_handleA cfg fs req hcap hfs
+
+theorem async_no_panic (cfg : Cfg) (fs : Call → Ans) (req : Bytes) (hcap : cfg.cap < 2 ^ 32)
+    (hfs : FsSane fs) (s : String) : (Fbr.SrvAsync.handle cfg fs req).ret ≠ .panic s :=
+  (async_good_handle cfg fs req hcap hfs).noPanic s
+
+theorem async_fusedev_single_write (cfg : Cfg) (fs : Call → Ans) (req : Bytes) (hcap : cfg.cap < 2 ^ 32)
+    (hfs : FsSane fs) : (Fbr.SrvAsync.handle cfg fs req).out.sys.length ≤ 1 :=
+  (async_good_handle cfg fs req hcap hfs).oneWrite
+
+theorem async_reply_well_formed_fusedev (cfg : Cfg) (fs : Call → Ans) (req : Bytes) (hcap : cfg.cap < 2 ^ 32)
+    (hfs : FsSane fs) : ∀ m ∈ (Fbr.SrvAsync.handle cfg fs req).out.sys, WfMsg (uniqueOf req) m :=
+  (async_good_handle cfg fs req hcap hfs).sysWf
+
+theorem async_reply_well_formed_virtio (cfg : Cfg) (fs : Call → Ans) (req : Bytes) (hcap : cfg.cap < 2 ^ 32)
+    (hfs : FsSane fs) :
+    (Fbr.SrvAsync.handle cfg fs req).out.area = [] ∨
+      WfArea (uniqueOf req) (Fbr.SrvAsync.handle cfg fs req).out.area :=
+  (async_good_handle cfg fs req hcap hfs).areaWf
 
 /-- non-vacuity of the hypotheses: a concrete sane file system and capacity -/
 example : FsSane (fun _ => Ans.err (.os 2)) ∧ (4096 : Nat) < 2 ^ 32 := by
